@@ -70,6 +70,26 @@ INFO = {
  "C11r5-add-test-name-index-by-value": ("C11", "add_test drops the arguments at params.index(name) - 1 instead of at the NAME keyword's position", "NAME not first and an earlier argument equal to the test name"),
  "C13r5-output-sibling-prefix": ("C13", "sub-directories whose path startswith the (nested) output directory are pruned, without a trailing separator", "-r, output nested in the input tree, and a sibling directory whose name starts with the output directory's name"),
  "C20r5-option-overwrite-same-name": ("C20", "Directive.option() replaces an earlier option of the same name in place", "the same option name added twice to one directive"),
+ "C04r6-splitlines-doc-lines": ("C04", "enterDocumented_command/_module split the doccomment with str.splitlines() instead of split('\\n')", "a doc line containing FF, VT, NEL, U+2028/2029, FS/GS/RS or a lone CR + an indented doccomment block"),
+ "C06r6-escape-identity-zero": ("C06", "lexer grammar typo: Escape_identity excludes [A-Za-z1-9;] (serialized ATN patched consistently)", "the invalid escape \\0 outside comments"),
+ "C07r6-unescape-quoted-set-value": ("C07", "process_set evaluates CMake escape sequences of a single quoted value (\\n -> newline)", "a documented set(VAR \"...\\n...\") : the Default value field gains a real line break and leaves its directive"),
+ "C08r6-include-option-suffix-match": ("C08", "include_undocumented(command) matches option names by suffix (ct_add_test ends with add_test)", "include_undocumented_add_test off + include_undocumented_ct_add_test on + an undocumented add_test()"),
+ "C10r6-semicolon-value-typed-list": ("C10", "a single value containing ';' is typed list", "documented set() with one value that contains a semicolon"),
+ "C12r6-title-from-unnamed-module": ("C12", "process_docs sets writer.title = module_doc.name also for an unnamed @module doccomment", "unnamed @module doccomment + file_extensions_in_titles != file_extensions_in_modules"),
+ "C14r6-toctree-stem-first-dot": ("C14", "toctree entry = file[:file.find('.')]", "a CMake file whose base name contains a dot before the extension"),
+ "C15r6-auto-exclude-first-cmake-only": ("C15", "auto-exclusion looks only at the FIRST .cmake entry scandir lists", "-r, a subdirectory with an excluded and a non-excluded .cmake file, the excluded one listed first"),
+ "C16r6-exclude-union-skipped-when-top-empty": ("C16", "the exclude-pattern union is skipped when the highest-priority source's list is empty", "exclude_filters: [] in the -s file + patterns in the per-user file"),
+ "C17r6-exclude-filters-through-set": ("C17", "main() de-duplicates the exclude patterns through set()", "two overlapping patterns, one negated + different hash seeds"),
+ "C18r6-index-written-after-pages": ("C18", "document() writes index.rst after the pages of the directory", "a module named index.cmake (its page and the index share one path: known finding D15)"),
+ "C19r6-settings-file-suppresses-r": ("C19", "cminx_gen_rst parses -s <file> from the extra arguments and drops -r when the file says recursive: false", "directory input + '-s <file>' whose text matches 'recursive: *(false|no|off)'"),
+ "C01r7-method-doc-nfc-normalised": ("C01", "MethodDocumentation.process emits unicodedata.normalize('NFC', doc)", "cpp_member/cpp_constructor doccomment with text that is not NFC (combining sequences, U+212B, U+0958 ...)"),
+ "C02r7-member-class-name-sanity-check": ("C02", "process_cpp_member returns early when the class argument differs textually from the open class's name", "member whose class argument is spelled in another case / quoted / a reference"),
+ "C03r7-kwargs-not-appended-if-present": ("C03", "**kwargs appended only if '**kwargs' not in param_list", "a parameter spelled exactly **kwargs + kwargs trigger or cmake_parse_arguments"),
+ "C05r7-redefined-function-skipped": ("C05", "process_function returns early (no stack push) when a function of that name is already documented", "the same function name defined twice in one file: IndexError at endfunction"),
+ "C09r7-param-types-by-name-dict": ("C09", "MethodDocumentation.process pairs names and types through dict(zip(params, types))", "two parameters of a member implementation with the same (stripped) name"),
+ "C11r7-section-type-by-raw-command-text": ("C11", "process_ct_add_section delegates to process_ct_add_test, which picks the doc type by the RAW command text", "CT_ADD_SECTION written with upper-case letters gets the test warning"),
+ "C13r7-empty-directory-skipped": ("C13", "document() skips a walked directory without files and subdirectories (no index.rst)", "-r, auto-exclusion off, a completely empty (or completely excluded) directory"),
+ "C20r7-heading-length-by-display-width": ("C20", "Heading frame length = sum of east-asian display widths instead of len(title)", "a title with wide/full-width characters"),
  "C18r2-sort-by-splitext": ("C18", "files sorted by (stem, extension) instead of by name", "a directory with names like Foo.cmake and Foo-x.cmake: stdout page order is not the sorted name order"),
 }
 
@@ -93,7 +113,7 @@ for name, (prop, change, needs) in INFO.items():
     d = os.path.join(R, "seeded", name)
     if not os.path.isdir(d):
         continue
-    r2 = "r2" if "r2-" in name else ("r3" if "r3-" in name else ("r4" if "r4-" in name else ("r5" if "r5-" in name else "")))
+    r2 = "r2" if "r2-" in name else ("r3" if "r3-" in name else ("r4" if "r4-" in name else ("r5" if "r5-" in name else ("r6" if "r6-" in name else ("r7" if "r7-" in name else "")))))
     after = parse(os.path.join(R, ".logs", "seed%s_%s.log" % (r2, prop)))
     before = parse(os.path.join(R, ".logs", "seed%sbefore_%s.log" % (r2, prop)))
     meta = {"breaks_property": prop, "change": change, "needs_to_manifest": needs,
